@@ -15,7 +15,7 @@ MC_QNames  == {Abs(w) : w \in MC_Owners \cup {<<>>, <<lc>>, <<lc, la>>, <<la, ST
 \* quick tier: the same shapes over fewer names
 MCQ_Owners  == {<<la>>, <<STAR>>, <<la, la>>, <<STAR, la>>}
 MCQ_Targets == {Abs(<<la>>), Abs(<<lc, la>>), OutTgt}
-MCQ_NodeData == {Records(nd) : nd \in NodesOver(MCQ_Owners, {"A", "TXT", "MULTI"}, {"NS", "NSG", "NSD"}, MCQ_Targets)}
+MCQ_NodeData == {Records(nd) : nd \in NodesOver(MCQ_Owners, {"A", "MULTI"}, {"NS", "NSD"}, MCQ_Targets)}
 MCQ_QNames  == {Abs(w) : w \in MCQ_Owners \cup {<<>>, <<lc>>, <<lc, la>>, <<la, STAR>>, <<ln, la>>, <<lb, la, la>>}} \cup {OutName}
 MC_QTypes  == {"A", "AAAA", "MX", "NS", "CNAME", "SOA", "DS", "TXT", "ANY"}
 =============================================================================
